@@ -370,7 +370,8 @@ def run():
                               {'kind': 'impl', 'q': q.tolist(), 'grid': g.tolist(), 'feq': e.tolist()})
 
     # ---------------- (b) simulated MPI
-    shapes = [[8, 8, 8, 8], [9, 7, 10, 8]] if quick else [[8, 8, 8, 8], [9, 7, 10, 8], [7, 9, 8, 11], [12, 8, 9, 10]]
+    # (v grids of 4 and 5 points are the uniform-cubic clamped spaces with 1 and 2 cells, where a spline is cut at both ends)
+    shapes = [[8, 8, 8, 8], [9, 7, 10, 8], [6, 8, 8, 4], [6, 8, 8, 5]] if quick else [[8, 8, 8, 8], [9, 7, 10, 8], [7, 9, 8, 11], [12, 8, 9, 10], [6, 8, 8, 4], [6, 8, 8, 5], [8, 8, 8, 6]]
     grids = [(1, 1), (1, 2), (2, 1), (2, 2), (3, 2), (2, 3), (1, 4), (4, 1)] if quick else \
             [(1, 1), (1, 2), (2, 1), (2, 2), (3, 2), (2, 3), (1, 4), (4, 1), (3, 1), (1, 3), (3, 3), (4, 2), (2, 4), (5, 1), (6, 1), (7, 1)]
     mcases = []
